@@ -40,12 +40,12 @@ META = {
 THEOREMS = [
     "view_is_flattened", "lookup_priority", "fallback_then_default", "override_wins", "master_default",
     "reprioritise", "profiles_end_profileless", "list_tuple_dict_consistent", "bool_eight_spellings",
-    "replace_only_known", "text_roundtrip_partial",
+    "replace_only_known", "text_roundtrip_partial", "fill_fits_unchanged", "text_roundtrip", "int_float_consistent",
     "c19_stale_refuted", "c19_fbsect_refuted", "c19_mkey_refuted", "c19_fmt_refuted", "c19_metanl_refuted",
     "c19_clear_refuted", "replace_uses_current_vars",
 ]
 
-REQ = "From Verif Require Import Model.C19_Config.\nOpen Scope string_scope."
+REQ = "From Verif Require Import Lib.Dyadic Model.C19_Config.\nOpen Scope string_scope."
 
 QUIRKS = {
     1: ("c19_stale_view_after_failed_batch",
@@ -190,7 +190,8 @@ def t_obs(q, a):
         def ty(x):
             return ("(Typed " + " ".join([
                 emit.s(x["str"]), t_strs(x["list"]), t_strs(x["tuple"]), t_strs(x["as_list"]), t_kvs(x["dict"]),
-                t_res(x["as_dict"], t_kvs), t_res(x["bool"], emit.b), t_res(x["int"], emit.zs)]) + ")")
+                t_res(x["as_dict"], t_kvs), t_res(x["bool"], emit.b), t_res(x["int"], emit.zs),
+                t_res(x["float"], lambda f: f"(FDy {emit.dy(f)})")]) + ")")
         return "(ATyped " + t_res(a, ty) + ")"
     if k in ("replaced", "as_str"):
         return "(AText " + t_res(a, emit.s) + ")"
@@ -304,7 +305,7 @@ def ask(c, q, workdir, counter):
             return ("err", "ErrEntry")
         return ("ok", dict(str=e.str, list=list(e.list), tuple=list(e.tuple), as_list=list(e.as_list()),
                            dict=list(e.dict.items()), as_dict=guard(lambda: list(e.as_dict().items())),
-                           bool=guard(lambda: e.bool), int=guard(lambda: e.int)))
+                           bool=guard(lambda: e.bool), int=guard(lambda: e.int), float=guard(lambda: e.float)))
     if k == "replaced":
         e = view_entry(c, q["section"], q["key"])
         if e is None:
@@ -355,7 +356,10 @@ def gen_value(rng, simple=False):
     if kind == "word":
         return rng.choice(WORDS)
     if kind == "number":
-        return rng.choice(["0", "1", "42", "-7", "+3", "1_000", "3.14", "007", "12e3", "1__0", "_1", "5_"])
+        return rng.choice(["0", "1", "42", "-7", "+3", "1_000", "3.14", "007", "12e3", "1__0", "_1", "5_", "1.", ".5", "-.5e-3",
+                           "1e-3", "1_0.2_5", "inf", "-Infinity", "nan", "+NaN", "1e", "e5", ".", "0x10", "1 2", "1._5", "1_.5",
+                           "6.02214076E+23", "-0.0", "2.5e-300", "123456789012345678901234567890", "0.1", "1e+0_2", " 7.25 ",
+                           "9007199254740993", "1.7976931348623157e308", "4.9e-324", "infinit", "- 1"])
     if kind == "list":
         n = rng.randrange(1, 5)
         sep = rng.choice([", ", ",", " ", " , ", ",,", "  "])
